@@ -61,8 +61,10 @@ structure Cfg where
   resultsMax : Nat := 100             -- `execution_results_cache_size`
   retention : Nat := 60000            -- `RETENTION_DURATION` (ms)
   cacheMax : Nat := 50000             -- `REMOVAL_CACHE_SIZE`
-  /-- `false` = the code as it is. `true` = the proposed fix: a promotion/demotion that fails
-      during maintenance records `RemovalReason::InternalError` like `insert` does. -/
+  /-- `true` = the code as it is since /repo commit 8c2d14f (repair of finding F13): a
+      promotion/demotion that fails during maintenance records `RemovalReason::InternalError`
+      like `insert` does; the driver runs the model with `true`. `false` = the pinned code, which
+      only un-tracked the id (kept for the counterexample theorem). -/
   reportFailedMoves : Bool := false
   deriving DecidableEq, Repr, Inhabited
 
